@@ -7,7 +7,8 @@
     * per replica `attempts` (`baseReplicaSelector.buildRPCContext`: `targetReplica.attempts++`), capped by
       `maxReplicaAttempt` (`replica.isExhausted`, the weakest of the caps 1 / 2 / maxReplicaAttempt the strategies use);
     * `replica.onUpdateLeader`: a NotLeader reply with a leader hint refills an exhausted replica to `maxReplicaAttempt-1`;
-      the model grants one refill per scripted hint reply (`credit`);
+      every NotLeader reply with a leader hint is a redirect; `replicaSelector.leaderHintRedirects` counts them and from the
+      (#replicas+1)-th on `onNotLeader` backs off (regionScheduling) before following the hint;
     * the back-off budget of config/retry/backoff.go `BackoffWithCfgAndMaxSleep`: a back-off of a non-excluded kind is
       refused when `totalSleep - excludedSleep ≥ maxSleep`, of an excluded kind additionally when
       `excludedSleep ≥ limit ∧ excludedSleep ≥ maxSleep`; every sleep is at least the kind's minimal sleep;
@@ -56,7 +57,7 @@ structure Cfg where
   maxSleep : Nat     -- Backoffer.maxSleep (ms)
   isWrite : Bool     -- write command
   tsInvalid : Bool   -- validation enabled ∧ read command ∧ the oracle rejects the read ts
-  hints : Nat        -- environment: how many leader-hint refills the stores may cause
+  hints : Nat        -- (unused since the hint-cycle repair; kept for the line protocol)
   shortRead : Bool   -- read command with a time-out below ReadTimeoutShort (`isReadReqConfigurableTimeout`)
   deriving DecidableEq, Repr
 
@@ -65,7 +66,8 @@ structure State where
   att : List Nat          -- per replica attempts (length n)
   total : Nat             -- Backoffer.totalSleep
   excluded : Nat          -- Backoffer.excludedSleep
-  credit : Nat            -- leader-hint refills left
+  credit : Nat            -- (unused since the hint-cycle repair)
+  redirects : Nat         -- replicaSelector.leaderHintRedirects
   sent : Nat              -- sendReqState.vars.sendTimes
   last : Option Resp      -- answer of the last RPC
   done : Bool
@@ -79,7 +81,7 @@ structure State where
 def maxAtt : Nat := Gen.maxReplicaAttempt
 
 def init (c : Cfg) : State :=
-  { cfg := c, att := List.replicate c.n 0, total := 0, excluded := 0, credit := c.hints, sent := 0, last := none, done := false,
+  { cfg := c, att := List.replicate c.n 0, total := 0, excluded := 0, credit := c.hints, redirects := 0, sent := 0, last := none, done := false,
     owedNow := none, owedBusy := [], busyCredit := false, lastStore := 0, lastFatal := false }
 
 /-! ## back-off table (regenerated from config/retry/config.go) -/
@@ -157,6 +159,15 @@ def owesNow (shortRead : Bool) (fault : String) : Option String :=
 def owesBusy (shortRead : Bool) (fault : String) : Bool :=
   fault = "busy" || fault = "busyw" || fault = "busyww" || (fault = "busydl" && !shortRead)
 
+/-- NotLeader replies that carry a leader hint (`nlx`: a hint naming a peer outside the region) -/
+def isRedirectFault (fault : String) : Bool :=
+  fault = "nl1" || fault = "nl2" || fault = "nl3" || fault = "nlnext" || fault = "nlx"
+
+/-- `onNotLeader`: the first `n` (= #replicas) hints are followed at once; before following a further one the selector backs
+    off. `k` = hints followed so far -/
+def owesNowK (n : Nat) (shortRead : Bool) (k : Nat) (fault : String) : Option String :=
+  if isRedirectFault fault && k ≥ n then some "regionScheduling" else owesNow shortRead fault
+
 def isFatalFault (fault : String) : Bool :=
   fault = "flashback" || fault = "flashbacknp" || fault = "toolarge" || fault = "badmaxts" || fault = "rpccancel"
 
@@ -180,9 +191,10 @@ def stepAllowed (s : State) : Ev → Bool
     (attObs = 0 || attObs = getAtt s c + 1) &&
     (retry == decide (0 < s.sent)) &&
     (!s.cfg.isWrite || (!rr && !sr)) &&
-    (s.owedNow.isNone && (!s.owedBusy.contains store || s.busyCredit))
+    (s.owedNow.isNone && (!s.owedBusy.contains store || s.busyCredit)) &&
+    ((match _resp with | .nlhint _ => false | _ => true) || isRedirectFault _fault)
   | .bump q a =>
-    !s.done && validPeer s q && 0 < s.credit && s.last = some (.nlhint q) && a + 1 = maxAtt
+    !s.done && validPeer s q && s.last = some (.nlhint q) && a + 1 = maxAtt
   | .backoff k ms =>
     !s.done && !s.cfg.tsInvalid && !afterOk s &&
     (match kindRow k with
@@ -209,11 +221,12 @@ def step (s : State) : Ev → State
     let c := charged peer proxy
     let rest := s.owedBusy.filter (· != store)
     { s with att := setAtt s.att (c - 1) (getAtt s c + 1), sent := s.sent + 1, last := some resp,
-             owedNow := owesNow s.cfg.shortRead fault,
+             owedNow := owesNowK s.cfg.n s.cfg.shortRead s.redirects fault,
+             redirects := if isRedirectFault fault then s.redirects + 1 else s.redirects,
              owedBusy := if owesBusy s.cfg.shortRead fault then store :: rest else rest,
              busyCredit := false, lastStore := store, lastFatal := isFatalFault fault }
   | .bump q _ =>
-    { s with att := setAtt s.att (q - 1) (min (getAtt s q) (maxAtt - 1)), credit := s.credit - 1, last := some .regionerr }
+    { s with att := setAtt s.att (q - 1) (min (getAtt s q) (maxAtt - 1)), last := some .regionerr }
   | .backoff k ms =>
     { s with total := s.total + ms, excluded := if (kindLimit k).isSome then s.excluded + ms else s.excluded,
              owedNow := if s.owedNow = some k then none else s.owedNow,
@@ -235,18 +248,24 @@ def remAtt (l : List Nat) : Nat := (l.map fun a => maxAtt - a).sum
 /-- remaining back-off steps (main budget + excluded budget) -/
 def rank1 (s : State) : Nat := ceilDiv (mainRem s) minStep + ceilDiv (exclRem s) minStep
 /-- Σ remaining attempts + 2·(leader-hint refills left) -/
-def rank2 (s : State) : Nat := remAtt s.att + 2 * s.credit
+def owedFlag (s : State) : Nat := if s.owedNow.isNone then 1 else 0
+def freeLeft (s : State) : Nat := s.cfg.n - s.redirects
+def bumpOk (s : State) : Nat := match s.last with | some (.nlhint _) => 1 | _ => 0
+/-- first component: remaining back-off steps, and whether a back-off is already owed -/
+def rankA (s : State) : Nat := 2 * rank1 s + owedFlag s
+/-- second component: Σ remaining attempts + 2·(free leader-hint redirects left) + 2·(a refill is possible) -/
+def rank2 (s : State) : Nat := remAtt s.att + 2 * freeLeft s + 2 * bumpOk s
 
-def rank (s : State) : Nat × Nat := (rank1 s, rank2 s)
+def rank (s : State) : Nat × Nat := (rankA s, rank2 s)
 
 def isSend : Ev → Bool | .send .. => true | _ => false
 def isFinal : Ev → Bool | .result .. => true | _ => false
 def countSends (es : List Ev) : Nat := (es.filter isSend).length
 
 /-- explicit bounds for a configuration -/
-def sendBound (c : Cfg) : Nat := c.n * maxAtt + c.hints
 def backoffBound (c : Cfg) : Nat := ceilDiv c.maxSleep minStep + ceilDiv (max exclLimitMax c.maxSleep) minStep
-def eventBound (c : Cfg) : Nat := c.n * maxAtt + 2 * c.hints + backoffBound c + 1
+def sendBound (c : Cfg) : Nat := c.n * maxAtt + c.n + backoffBound c + 1
+def eventBound (c : Cfg) : Nat := 2 * (c.n * maxAtt + c.n + backoffBound c + 1) + backoffBound c + 1
 
 /-! ## the property oracles, as functions of an event trace (evaluated by the driver on the model's own accepted trace) -/
 
@@ -291,14 +310,16 @@ def backoffBeforeSend (k : String) (scope : Option Nat) : List Ev → Bool
 
 /-- every retry path switches peer or consumes back-off budget: after an answer for which the handler owes a back-off, no RPC
     (to any store / to the same store) follows before a back-off of that config -/
-def propBackoffDiscipline (shortRead : Bool) : List Ev → Bool
+def disciplineFrom (n : Nat) (shortRead : Bool) (k : Nat) : List Ev → Bool
   | [] => true
   | e :: es =>
     (match e with
      | .send _ st _ _ _ _ _ _ f =>
-       (match owesNow shortRead f with | some k => backoffBeforeSend k none es | none => true) &&
+       (match owesNowK n shortRead k f with | some kind => backoffBeforeSend kind none es | none => true) &&
        (!owesBusy shortRead f || backoffBeforeSend busyKind (some st) es)
-     | _ => true) && propBackoffDiscipline shortRead es
+     | _ => true) &&
+    disciplineFrom n shortRead (match e with | .send _ _ _ _ _ _ _ _ f => if isRedirectFault f then k + 1 else k | _ => k) es
+def propBackoffDiscipline (n : Nat) (shortRead : Bool) (es : List Ev) : Bool := disciplineFrom n shortRead 0 es
 
 /-! ## line protocol (driver side) -/
 
